@@ -1,5 +1,6 @@
 import IsoMdl.Props.C03
 import IsoMdl.Lemmas.Cbor
+import IsoMdl.Model.ResponseFacts
 /-
 C05 — Device authentication is bound to the issued key, this session and this document.
 -/
@@ -89,6 +90,82 @@ theorem C05_transcript_injective (p : Bytes) (t t' : Cbor) (d d' : Bytes) (n n' 
   simp only [Cbor.tag.injEq, Cbor.bytes.injEq, true_and] at h1
   have h2 := enc_injective _ _ hw hw' h1
   simpa using h2
+
+
+section Wire
+open IsoMdl.ResponseFacts
+
+/-- THE HOLDER'S KEY IS THE ISSUED ONE, FROM THE WIRE: the key under which the model checks the device
+signature is read from `deviceKeyInfo.deviceKey` of the MSO, is an EC2 key (kty 2) with two 32-byte
+coordinates, and is a point of P-256. -/
+theorem C05_wire_device_key (mso : Option Cbor) (x y : Nat) (h : (deviceKeyOf mso).2 = some (x, y)) :
+    ∃ m ki kv xb yb, mso = some m ∧ fget m "deviceKeyInfo" = some ki ∧ fget ki "deviceKey" = some kv ∧
+      mget kv (.uint 1) = some (.uint 2) ∧ mget kv (.nint 1) = some (.bytes xb) ∧ mget kv (.nint 2) = some (.bytes yb) ∧
+      xb.length = 32 ∧ yb.length = 32 ∧ x = fromBe xb ∧ y = fromBe yb ∧ P256.onCurve x y = true := by
+  unfold deviceKeyOf at h
+  cases mso with
+  | none => simp at h
+  | some m =>
+    simp only [Option.bind_some] at h
+    cases hki : fget m "deviceKeyInfo" with
+    | none => simp [hki] at h
+    | some ki =>
+      simp only [hki, Option.bind_some] at h
+      cases hkv : fget ki "deviceKey" with
+      | none => simp [hkv] at h
+      | some kv =>
+        simp only [hkv] at h
+        cases kv with
+        | map kvs =>
+          simp only at h
+          split at h
+          · rename_i xb yb h1 h2 h3
+            split at h
+            · simp at h
+            · rename_i hlen
+              split at h
+              · rename_i hon
+                simp only [Option.some.injEq, Prod.mk.injEq] at h
+                obtain ⟨rfl, rfl⟩ := h
+                simp only [bne_iff_ne, ne_eq, Bool.or_eq_true, not_or, Decidable.not_not] at hlen
+                exact ⟨m, ki, .map kvs, xb, yb, rfl, hki, hkv, h1, h2, h3, hlen.1, hlen.2, rfl, rfl, hon⟩
+              · simp at h
+          · simp at h
+          · simp at h
+          · simp at h
+        | _ => simp at h
+
+/-- DEVICE AUTHENTICATION FROM THE WIRE: when the model's `dsa` fact holds for a response, the document
+judged is the first mDL document; the key is the one named by the MSO decoded from THAT document's
+issuer-signed payload (`C05_wire_device_key` says what it is); and the signature verifies under it
+over Sig_structure(protected, DeviceAuthenticationBytes) built from THIS session's transcript, THIS
+document's docType and ITS DeviceNameSpacesBytes as received. -/
+theorem C05_wire_device_signature_bound (resp transcript : Cbor) (ikey : Option (Nat × Nat))
+    (h : (compute resp transcript ikey).dsa = true) :
+    ∃ doc x y dprot u1 u2 dsig docType dns,
+      firstMdl resp = some doc ∧ (deviceKeyOf (msoOfDoc doc)).2 = some (x, y) ∧
+      ((((fget doc "deviceSigned").bind fun s => fget s "deviceAuth").bind fun a => fget a "deviceSignature").bind coseArr)
+        = some [.bytes dprot, u1, u2, .bytes dsig] ∧
+      fget doc "docType" = some docType ∧ ((fget doc "deviceSigned").bind fun s => fget s "nameSpaces") = some dns ∧
+      ecdsaVerify x y (ResponseFacts.sigStructure dprot (deviceAuthBytes transcript docType dns)) dsig = true := by
+  unfold compute at h
+  cases hd : firstMdl resp with
+  | none => simp [hd] at h
+  | some doc =>
+    simp only [hd] at h
+    unfold deviceSigAccepts at h
+    dsimp only at h
+    split at h
+    · rename_i dprot u1 u2 dsig x y docType dns h1 h2 h3 h4
+      exact ⟨doc, x, y, dprot, u1, u2, dsig, docType, dns, rfl, h2, h1, h3, h4, h⟩
+    · simp at h
+
+/-- the bytes of the wire model are the DeviceAuthenticationBytes of the definitions above, so
+`C05_transcript_injective` applies to them: another transcript, docType or namespaces = other bytes -/
+theorem C05_wire_bytes_eq (t : Cbor) (d : Bytes) (n : Cbor) :
+    deviceAuthBytes t (.text d) n = deviceAuthenticationBytes t d n := rfl
+
+end Wire
 
 /-- non-vacuity -/
 example : (handleResponse { honest with deviceSigAccepts := false }).device = .invalid ∧
